@@ -4,6 +4,7 @@ package scen
 
 import (
 	"crypto/sha256"
+	abci "github.com/cometbft/cometbft/abci/types"
 
 	"encoding/json"
 	cmted25519 "github.com/cometbft/cometbft/crypto/ed25519"
@@ -133,3 +134,11 @@ func mix(h [32]byte, s string) [32]byte {
 }
 
 func edAddr(pk []byte) []byte { return cmted25519.PubKey(pk).Address() }
+
+// c19Extra is filled in by later scenario files (fault enumeration, cross-chain scenarios).
+var c19Extra = func(tier string) []Unit { return nil }
+
+// abciVal is the validator field of a slash packet: address of the (consumer) consensus key + power.
+func abciVal(v env.Val, power int64) abci.Validator {
+	return abci.Validator{Address: v.ConsAddr(), Power: power}
+}
